@@ -227,7 +227,10 @@ Inductive out :=
 | OUserinfo
 | OActive (scope : list pystr) (client : pystr) (cls : tcls)
 | OInactive
-| OLogin.                                (* the authorization endpoint wants the user to authenticate (again); nothing is issued *)
+| OLogin                                 (* the authorization endpoint wants the user to authenticate (again); nothing is issued *)
+(* the authorization response of an implicit / hybrid (or plain code) request: what it carries by parameter, and the
+   scope it states *)
+| OAuthzRT (code acc idt : option nat) (scope : list pystr).
 
 Definition offline : pystr := PS "offline_access".
 Definition openid : pystr := PS "openid".
@@ -255,7 +258,11 @@ Inductive op :=
    `user` is who the authentication method logs in if a login takes place.  fresh = false: state, nonce and every other
    parameter besides client, scope and redirect_uri are those of the request that created grant prev; fresh = true: a
    nonce never sent before (so the request differs from every stored one). *)
-| AuthorizeCookie (prev : nat) (user client : pystr) (scope : list pystr) (redirect : pystr) (fresh : bool).
+| AuthorizeCookie (prev : nat) (user client : pystr) (scope : list pystr) (redirect : pystr) (fresh : bool)
+(* An authorization request (no cookie) with any response type: want_code / want_token / want_idt say whether
+   response_type contains `code` / `token` / `id_token`.  The authorization endpoint ITSELF mints the access token and the
+   ID Token of an implicit / hybrid response (Authorization.create_authn_response). *)
+| AuthorizeRT (user client : pystr) (scope : list pystr) (want_code want_token want_idt : bool).
 
 Definition redirect_of (client : pystr) : pystr := PS "https://" ++ client ++ PS ".example.com/cb".
 
@@ -305,6 +312,36 @@ Definition do_authorize_cookie (c : cfg) (s : st) (prev : nat) (u cl : pystr) (s
       else
         (* any difference: a new grant for the cookie's user under the same authentication event *)
         do_authorize_at c s (g_user g) cl sc redir (g_valid_until g)
+  end.
+
+(* Authorization.create_authn_response: one mint_token per member of the response type, in the order code, token,
+   id_token; every one of them without based_on and without a scope argument, so Grant.mint_token gives it the grant's
+   scope.  (The ID Token was minted with the raw requested scope until /repo 90c6f61.)  Lifetimes: the class's usage rule,
+   or the token handler's lifetime where there is none - the same numbers the token endpoint uses. *)
+Definition mint_if (b : bool) (s : st) (gi : nat) (cls : tcls) (mx : option Z) (mints : option (list tcls)) (e : Z)
+  : res (st * option nat) :=
+  if b then match mint s gi cls None None mx mints e with
+            | Ok (s', id) => Ok (s', Some id)
+            | Err x => Err x
+            | Unmodelled => Unmodelled
+            end
+  else Ok (s, None).
+Definition do_authorize_rt (c : cfg) (s : st) (u cl : pystr) (sc : list pystr) (wc wt wi : bool) : st * out :=
+  let gsc := match sc with [] => [] | _ => filter_scopes c cl sc end in
+  let g := mkGrant u cl false (now s + c_grant_exp c) gsc sc (redirect_of cl) (now s + c_authn_valid c) false in
+  let gi := length (grants s) in
+  let s1 := mkSt (now s) (grants s ++ [g]) (toks s) (parsed s) in
+  match mint_if wc s1 gi Code (Some 1) (Some (c_code_mints c)) (c_code_exp c) with
+  | Ok (s2, code) =>
+      match mint_if wt s2 gi Access None None (c_access_exp c) with
+      | Ok (s3, acc) =>
+          match mint_if wi s3 gi IdTok None None (c_idtok_exp c) with
+          | Ok (s4, idt) => (s4, OAuthzRT code acc idt (filter_scopes c cl sc))
+          | _ => (s3, OExc)
+          end
+      | _ => (s2, OExc)
+      end
+  | _ => (s1, OExc)
   end.
 
 Definition push_parsed (s : st) (p : preq) : st := mkSt (now s) (grants s) (toks s) (parsed s ++ [p]).
@@ -561,6 +598,7 @@ Definition step (c : cfg) (s : st) (o : op) : st * out :=
                      | None => (s, OSkip) end
   | Tick d => (mkSt (now s + Z.max 0 d) (grants s) (toks s) (parsed s), OOk)
   | AuthorizeCookie prev u cl sc redir fresh => do_authorize_cookie c s prev u cl sc redir fresh
+  | AuthorizeRT u cl sc wc wt wi => do_authorize_rt c s u cl sc wc wt wi
   end.
 
 Fixpoint run (c : cfg) (s : st) (ops : list op) : st * list out :=
